@@ -7,6 +7,7 @@ package main
 import (
 	"encoding/base64"
 	"encoding/hex"
+	"fmt"
 	"math/big"
 	"math/rand"
 	"os"
@@ -261,10 +262,87 @@ func (g *gen) bigString() string {
 	return sb.String()
 }
 
+// wide: collections of 11..40 members (two-digit indexes, more members than any small example has) for every serialiser
+func (g *gen) wide(f string) any {
+	n := 11 + g.rng.Intn(30)
+	key := func(i int) string { return fmt.Sprintf("k%d", (i*7)%n) } // not in sorted order
+	switch f {
+	case "csv":
+		rows := make([]any, n)
+		for i := range rows {
+			r := make([]any, n)
+			for k := range r {
+				r[k] = fmt.Sprintf("c%d.%d", i, k)
+			}
+			rows[i] = r
+		}
+		return rows
+	case "xml":
+		o := map[string]any{}
+		for i := 0; i < n; i++ {
+			o[fmt.Sprintf("e%d", i)] = g.xmlText()
+			if i%5 == 0 {
+				o["@a"+fmt.Sprint(i)] = g.str()
+			}
+		}
+		return map[string]any{"doc": o}
+	case "xmla", "xmlseq":
+		kids := make([]any, n)
+		for i := range kids {
+			kids[i] = []any{[]string{"a", "b", "c"}[(i*i)%3], nil, []any{}}
+			if i%4 == 1 {
+				kids[i] = []any{"b", map[string]any{"#text": fmt.Sprint("t", i)}, []any{}}
+			}
+		}
+		return []any{"doc", nil, kids}
+	case "urlquery":
+		o := map[string]any{}
+		for i := 0; i < n; i++ {
+			o[key(i)] = fmt.Sprint("v", i)
+		}
+		vals := make([]any, n)
+		for i := range vals {
+			vals[i] = fmt.Sprint(i)
+		}
+		o["many"] = vals
+		return o
+	case "jsonl":
+		a := make([]any, n)
+		for i := range a {
+			a[i] = map[string]any{"i": i}
+		}
+		return a
+	case "toml":
+		o := map[string]any{}
+		for i := 0; i < n; i++ {
+			o[key(i)] = i
+		}
+		arr := make([]any, n)
+		for i := range arr {
+			arr[i] = map[string]any{"n": i}
+		}
+		o["tables"] = arr
+		return o
+	default: // json jq yaml and the indented forms
+		o := map[string]any{}
+		for i := 0; i < n; i++ {
+			o[key(i)] = i
+		}
+		arr := make([]any, n)
+		for i := range arr {
+			arr[i] = i
+		}
+		return []any{o, arr}
+	}
+}
+
 func (g *gen) serJob() M {
-	fs := []string{"json", "jq", "yaml", "toml", "csv", "xml", "xmla", "urlquery", "jsonl", "json_i", "jq_i"}
+	fs := []string{"json", "jq", "yaml", "toml", "csv", "xml", "xmla", "xmlseq", "urlquery", "jsonl", "json_i", "jq_i"}
 	f := fs[g.rng.Intn(len(fs))]
 	big := g.rng.Intn(100) == 0
+	if g.rng.Intn(25) == 0 {
+		return M{"k": "ser", "f": f, "v": tag(g.wide(f))}
+	}
 	var v any
 	switch f {
 	case "json", "jq", "json_i", "jq_i":
@@ -328,7 +406,7 @@ func (g *gen) serJob() M {
 		if big {
 			v = map[string]any{"a": map[string]any{"b": g.bigString() + "x", "@k": g.bigString()}}
 		}
-	case "xmla":
+	case "xmla", "xmlseq":
 		v = g.xmlArr(3)
 	case "urlquery":
 		o := map[string]any{}
